@@ -21,7 +21,7 @@ typedef struct {
 typedef struct {
     volatile long cur_idx; volatile int cur_flags; volatile int cur_phase;
     char where[512]; int crash_sig;
-    volatile int done, deadline_hit; long resume_idx;
+    volatile int done, deadline_hit, one_case_done; long resume_idx;
     long evaluations, nontrivial, skipped, nfail, ncrash;
     double max_ratio[WK_NRATIO];
     long counters[WK_NCOUNT];
@@ -57,6 +57,7 @@ extern const int vf_nchecks;
 int wk_fail(vres *r, const char *sig, const char *fmt, ...);
 int wk_main(int argc, char **argv);
 int wk_sig_known(const char *sig);  /* does the signature match one of the --known-sig patterns (recorded findings of this check)? */
+extern int wk_fork_per_case;       /* set by a harness before wk_main: every case runs in its own child of the pristine parent (process-lifetime state of the library starts fresh) */
 extern const char *wk_variant;    /* variant name given on the command line */
 extern int wk_tier;
 extern int wk_verbose;   /* replay mode: checks may print details to stderr */
